@@ -10,6 +10,7 @@ from vlib.ref import bip32 as R
 from vlib.util import call, expect_eq
 
 PROPERTY_ID = "C07"
+OPTIMIZED = ['versions']   # clauses run a second time under `python -O` (assert statements stripped)
 RULE = ("78-byte payloads valid per BIP32 (depth 0..255, fingerprint/child number zero iff depth 0, chain code, "
         "00||k or serP(kG)) serialised by the reference under all twelve SLIP-132 versions (exhaustive per case) and "
         "parsed from str / bytes / BytesIO; unknown versions from bit flips, multisig SLIP-132 and uniform 32-bit")
@@ -86,14 +87,12 @@ def check_roundtrip(case, ctx):
                                     "%s: extended_public_key(%#x) = %r, expected %s" % (what, vpub, xp, want_pub))
         # a node derived from a parsed one whose ancestors are not kept alive serialises with its real parent fingerprint
         if ref.depth < 255:
-            import gc
             try:
                 rchild = R.ckd_priv(ref, 1) if private else R.ckd_pub(ref.neuter(), 1)
             except R.Invalid:
                 rchild = None
             if rchild is not None:
                 st_, child = call(lambda: cls.parse(s, testnet).ckd(1))
-                gc.collect()
                 if st_ == "exc":
                     raise Violation("C07/derived/raised", "%s: parse(...).ckd(1) raised %r" % (tag, child))
                 want_c = b58.encode_check(rchild.payload(v, private))
